@@ -146,3 +146,20 @@ Theorem C03_put_weather_temp_valid : forall w, (forall x, w = Some x -> 0 <= x <
   payload_ok V_I 0x0002 (put_weather_payload w) = true /\
   parser_0002 (put_weather_payload w) = (do t <- hex_to_temp (word_of_opt w); Ok (t, lit "01")).
 Proof. exact put_weather_temp_valid. Qed.
+
+(* put_co2_level -> I|1298 and put_indoor_humidity -> I|12A0 (the HVAC sensors a gateway can impersonate): what they build is accepted by the
+   regenerated regex of their verb|code, and the modelled parser_1298 gives back the level for EVERY whole number of ppm below 7FFF, "no sensor" for
+   None -- and, for what four digits can still spell, "no sensor" for 32767 and a sensor FAULT from 32768 up (the constructor checks no range) *)
+Theorem C03_put_co2_level_valid : forall n, (forall x, n = Some x -> 0 <= x < 65536) ->
+  payload_ok V_I 0x1298 (put_co2_payload n) = true /\
+  parser_1298 (put_co2_payload n) =
+    Ok (match n with None => Co2None | Some x => if x =? 0x7FFF then Co2None else if 0x8000 <=? x then Co2Fault else Co2Level x end).
+Proof. exact put_co2_level_valid. Qed.
+Theorem C03_put_co2_level_roundtrip : forall x, 0 <= x < 0x7FFF -> parser_1298 (put_co2_payload (Some x)) = Ok (Co2Level x).
+Proof. exact put_co2_level_roundtrip. Qed.
+(* whole percents 0..100 (and None) through put_indoor_humidity and parser_12a0, by a sweep *)
+Theorem C03_put_indoor_humidity_valid :
+  forallb (fun b => payload_ok V_I 0x12A0 (put_humidity_payload (Some b)) &&
+                    match parser_12a0_short (put_humidity_payload (Some b)) with Ok (HumPct c) => c =? b | _ => false end) (zrange 101 0) = true /\
+  payload_ok V_I 0x12A0 (put_humidity_payload None) = true /\ parser_12a0_short (put_humidity_payload None) = Ok HumNone.
+Proof. exact put_indoor_humidity_valid. Qed.
